@@ -822,6 +822,9 @@ func init() {
 	reg("Codec", func(e *Exec, fn *ssa.Function, a []Value) Value { return opq("codec") })
 	reg("AddressCodec", func(e *Exec, fn *ssa.Function, a []Value) Value { return opq("addrcodec") })
 	reg("Logger", func(e *Exec, fn *ssa.Function, a []Value) Value { return opq("logger") })
+	reg("ProposerEnv", func(e *Exec, fn *ssa.Function, a []Value) Value {
+		return TupleV{V: []Value{opq("privkey"), opq("account"), opq("txconfig")}}
+	})
 	reg("GasUsed", func(e *Exec, fn *ssa.Function, a []Value) Value { return e.store_().Gas })
 }
 
